@@ -291,8 +291,18 @@ def fake_execute(gtapes, shots):
     return tuple(out)
 
 
+_REF_CACHE = {}
+
+
 def ref_jacobian(circ, tp, meas):
-    """R-fd Jacobian (M x k) of the reference simulator's results w.r.t. the trainable parameters."""
+    """R-fd Jacobian (M x k) of the reference simulator's results w.r.t. the trainable parameters (memoised per worker)."""
+    key = (circ, tuple(tp), tuple(meas))
+    if key not in _REF_CACHE:
+        _REF_CACHE[key] = _ref_jacobian(circ, tp, meas)
+    return _REF_CACHE[key]
+
+
+def _ref_jacobian(circ, tp, meas):
     from mc import refsim as RS
 
     k = CIRCS[circ]
@@ -609,7 +619,7 @@ def run(ctx):
         for k in (0, 1, 2, 3):
             for kind in KINDS:
                 for iface in IFACES:
-                    if q and iface in ("jax", "torch") and (len(shapes) == 3 or k == 2):
+                    if q and iface in ("jax", "torch") and (len(shapes) >= 2 or k == 2):
                         continue
                     forms = ["array", "tuple1"] if k <= 1 else ["array"]
                     for form in forms:
@@ -637,7 +647,7 @@ def run(ctx):
             continue
         t = {"circ": circ, "tp": tp, "meas": meas, "shots": shots}
         for fn in ("vjp", "jvp"):
-            for iface in (["numpy", "autograd"] if (q or shots is not None) else IFACES):
+            for iface in (["numpy"] if shots is not None else ["numpy", "autograd"] if q else IFACES):
                 specs.append({"fn": fn, "tapes": [t], "kind": kind, "iface": iface, "form": "array"})
         if kind == "generic":
             specs.append({"fn": "jvp", "tapes": [t], "kind": kind, "iface": "numpy", "form": "list"})
